@@ -452,6 +452,11 @@ def match_program(rng, idx):
             a = var(rng.choice(usable))
             b = rng.choice([["num", rng.randint(1, 3)], var(rng.choice(usable)), ["list", [var(rng.choice(usable))]]])
             body.append([rng.choice(["eq", "eq", "neq"]), a, b])
+        if rng.random() < 0.15:
+            # an arm whose body contains the literal `false` (under matcha / matchu it still commits)
+            body.insert(rng.randint(0, len(body)), ["fail"])
+        elif rng.random() < 0.08:
+            body.insert(rng.randint(0, len(body)), ["succeed"])
         arms.append({"pats": pats, "vars": pv, "body": body})
     body = prefix + [["match", op, mterm, arms]]
     if rng.random() < 0.3:
@@ -514,6 +519,22 @@ def rel_program(rng, idx, shadow):
         names["8"] = "v7"
     return {"id": "r%d" % idx, "backend": "surface", "kind": "program", "mode": "query", "qvars": [1, 2],
             "defs": {rel: d}, "body": body, "names": names, "after": 1, "budget": 400000}
+
+
+def commit_fail_program(rng, idx):
+    """matcha / matchu whose FIRST matching arm has the literal `false` in its body: the operator commits to that arm
+    and fails, although a later arm matches too."""
+    op = rng.choice(["matcha", "matchu"])
+    val = rng.choice([["nil"], ["list", [["num", 1], ["num", 2]]], ["num", 1], ["cmp", "Pair", [["num", 1], ["num", 2]]]])
+    pat_of = {"nil": ["nil"], "list": ["cons", ["any", 901], ["any", 902]], "num": ["num", 1], "cmp": ["cmp", "Pair", [["any", 903], ["num", 2]]]}
+    first = {"pats": [pat_of[val[0]] if rng.random() < 0.7 else ["any", 904]], "vars": [],
+             "body": rng.choice([[["fail"]], [["eq", var(2), ["num", 7]], ["fail"]], [["fail"], ["eq", var(2), ["num", 7]]]])}
+    other = {"pats": [rng.choice([["num", 5], ["list", [["num", 9]]]])], "vars": [], "body": [["eq", var(2), ["num", 8]]]}
+    last = {"pats": [["any", 905]], "vars": [], "body": [["eq", var(2), ["num", 9]]]}
+    arms = [first, last] if rng.random() < 0.5 else rng.choice([[other, first, last], [first, other, last]])
+    prefix = [["eq", var(1), val]] if rng.random() < 0.7 else [["conde", [[["eq", var(1), val]], [["eq", var(1), ["num", 5]]]]]]
+    return {"id": "cf%d" % idx, "backend": "surface", "kind": "program", "mode": "query", "qvars": [1, 2],
+            "body": prefix + [["match", op, var(1), arms]], "names": {}, "after": 1, "budget": 200000}
 
 
 def twice_program(rng, idx):
@@ -642,6 +663,9 @@ def grammar_program(rng, idx):
             def clause_():
                 if rng.random() < 0.2:
                     return [rng.choice([["fail"], ["fail"], ["succeed"]])]
+                if op != "dfs" and rng.random() < (0.4 if op in ("conda", "condu") else 0.12):
+                    # `[true, g ..]`: a literal true as the first goal (the guard, for conda / condu) of a bracketed arm
+                    return [["succeed"]] + [goal_(vars_, level + 1) for _ in range(rng.randint(1, 2))]
                 if op == "dfs":
                     return [rng.choice([["eq", var(rng.choice(vars_)), term_(vars_, 1)], ["neq", var(rng.choice(vars_)), ["num", 1]],
                                         ["cond", [[["eq", var(rng.choice(vars_)), ["num", j]]] for j in range(rng.randint(1, 3))]]])
@@ -675,6 +699,8 @@ def grammar_program(rng, idx):
     qs = list(range(1, nq + 1))
     body = [goal_(qs, 0) for _ in range(rng.randint(1, 4))]
     case = {"id": "g%d" % idx, "kind": "program", "mode": "query", "qvars": qs, "body": body, "after": 1, "budget": 400000}
+    if rng.random() < 0.5:
+        case["bracket_literals"] = True      # literal true / false arms are written `[true]` / `[false]`
     if rng.random() < 0.15:
         k = rng.randint(1, 2)
         case["body"] = body + [["loop", [[["conde", [[["eq", var(1), ["num", j]]] for j in range(k)]]]]]]
